@@ -362,15 +362,34 @@ func TestCRTRecombine(t *testing.T) {
 				}
 				return c
 			}
-			r, ok := prm.Recombine(clone()...)
-			if !ctb(ok) {
-				t.Fatalf("%s: Recombine not ok", what)
+			// NewParamsMulti reuses one Nat for the inverses M_i^-1 mod p_i of all factors; for an even
+			// p_i (i >= 1) that Nat is written with SetBig over the previous factor's inverse: the
+			// stale-limb face of finding C17-stale-reduced-after-even-modulus-write. The lifts, and so
+			// the parallel recombination, are then wrong; Garner's serial path has its own temporaries.
+			evenLater := false
+			for i := 1; i < k; i++ {
+				evenLater = evenLater || fs[i].Bit(0) == 0
 			}
-			wantNat(t, what+" Recombine", r, a, -1)
-			r, _ = prm.RecombineSerial(clone()...)
+			r, ok := prm.RecombineSerial(clone()...)
+			if !ctb(ok) {
+				t.Fatalf("%s: RecombineSerial not ok", what)
+			}
 			wantNat(t, what+" RecombineSerial", r, a, -1)
-			r, _ = prm.RecombineParallel(clone()...)
-			wantNat(t, what+" RecombineParallel", r, a, -1)
+			if evenLater {
+				vlib.Excluded(fStaleEven)
+				cls += "/even-factor(parallel excluded)"
+			}
+			if !evenLater || k <= 4 {
+				r, ok = prm.Recombine(clone()...)
+				if !ctb(ok) {
+					t.Fatalf("%s: Recombine not ok", what)
+				}
+				wantNat(t, what+" Recombine", r, a, -1)
+			}
+			if !evenLater {
+				r, _ = prm.RecombineParallel(clone()...)
+				wantNat(t, what+" RecombineParallel", r, a, -1)
+			}
 			if _, ok := prm.Recombine(clone()[:k-1]...); ctb(ok) {
 				t.Fatalf("%s: Recombine with a missing residue reported ok", what)
 			}
